@@ -1,6 +1,8 @@
 import RreModel.C15.Lemmas
 import RreModel.C15.LockLemmas
 import RreModel.C15.Generated.KbLocks
+import RreModel.C15.LinLemmas
+import RreModel.C15.LinTable
 /-
 C15 — property theorems (only). Helper lemmas live in Lemmas.lean / LockLemmas.lean.
 "Knowledge base lookups, order and version stay consistent."
@@ -285,5 +287,197 @@ example : Deadlock rwCompatible
       simp only [List.cons_append, List.cons.injEq] at hs0
       obtain ⟨_, _, h3⟩ := hs0
       cases z <;> simp at h3
+
+/-! ## (c) schedules WITH DATA: strict two-phase locking with footprints ⇒ linearizable
+
+The machine of Lin.lean: shared memory = the three protected components; a thread = one public call =
+`invoke · acquire* · read* · BODY · write* · release* · return`, where `read k` copies the shared
+component `k` into the thread's private view (only while it holds lock `k`), the body is `Model.step`
+on the private view, `write k v` stores arbitrary intermediate values while `k` is write-held, and a
+write guard can be released only when the component has the value the body computed. All steps of
+all threads interleave arbitrarily. -/
+
+open C15.Lin in
+/-- **Every row of the regenerated lock table is a well-formed lock program for its method against
+the sequential model**: the method has a row; the row takes its locks itself, drops nothing early and
+only its last acquisition may be a temporary (all guards are alive when the last one has been taken);
+and the guards cover the declared footprint `need` of the method's `Model.step` clause (every
+component the clause reads is held, every component it may change is held in write mode). -/
+theorem table_footprints_ok : tableFootprintsOk kbMethods = true := by decide
+
+open C15.Lin in
+/-- **The declared footprints are footprints of `Model.step`**: with guards covering `need`, the
+result and the written components of a call depend only on the held components, and no component
+that is not write-held changes. (Quantified over every state, argument and set of guards.) -/
+theorem footprint_sound (held : List Acq) (op : Op) (h : covers held (need (kindOf op)) = true) :
+    FootprintOk held op := need_sound held op h
+
+open C15.Lin in
+/-- **… and they are exact**: a set of guards is a well-formed lock program for every call of a
+method if AND ONLY IF it covers the declared footprint — the decidable check `covers` (hence
+`table_footprints_ok`) neither accepts an ill-formed row nor rejects a well-formed one. -/
+theorem footprint_exact (k : OpKind) (held : List Acq) :
+    covers held (need k) = true ↔ ∀ op, kindOf op = k → FootprintOk held op :=
+  ⟨fun h op hk => need_sound held op (hk ▸ h), need_necessary k held⟩
+
+open C15.Lin in
+/-- hence every call gets a well-formed lock program from the regenerated table -/
+theorem table_programs_wellformed (op : Op) : FootprintOk (progOf op) op :=
+  footprints_of_table kbMethods table_footprints_ok op
+
+open C15.Lin in
+/-- **General theorem (strict two-phase locking with footprints ⇒ linearizability).** For ANY
+assignment `ops` of calls to threads (any number of threads), any lock programs that are well-formed
+against `Model.step`, any admission policy that never grants an incompatible guard, any initial state
+and EVERY interleaved execution (finished or not): the order in which the bodies ran is a linearization
+— it respects real time, the sequential model replayed in that order returns exactly the observed
+results, and the shared memory is the sequential model's state (on every component not currently being
+written; entirely, whenever no call is between body and response). -/
+theorem two_phase_footprint_linearizable (ops : Nat → Op) (prog : Op → List Acq)
+    (adm : Cfg → Nat → Acq → Prop) (hadm : AdmSafe adm) (hfp : ∀ op, FootprintOk (prog op) op)
+    (kb0 : KB) (tr : List Label) (c : Cfg) (hex : Exec ops prog adm kb0 tr c) :
+    IsLinearization ops kb0 tr c (linOrder tr) :=
+  inv_linearization (inv_exec hadm hfp hex)
+
+open C15.Lin in
+/-- **`KnowledgeBase` is linearizable w.r.t. the sequential model** — for the lock programs of the
+table regenerated from the source: every finite set of threads, every method/argument assignment,
+every admission policy at least as strict as `RwLock` compatibility, every interleaving. -/
+theorem kb_linearizable (ops : Nat → Op) (adm : Cfg → Nat → Acq → Prop) (hadm : AdmSafe adm)
+    (kb0 : KB) (tr : List Label) (c : Cfg) (hex : Exec ops progOf adm kb0 tr c) :
+    ∃ order : List Nat, IsLinearization ops kb0 tr c order :=
+  ⟨linOrder tr, two_phase_footprint_linearizable ops progOf adm hadm table_programs_wellformed kb0 tr c hex⟩
+
+open C15.Lin in
+/-- **Complete executions**: when every invoked call has returned, the linearization is a total order
+of exactly the invoked calls, real time is respected, the sequential replay yields exactly the set of
+observed (call, result) pairs, and the final shared memory is the final state of the sequential model. -/
+theorem kb_linearizable_complete (ops : Nat → Op) (adm : Cfg → Nat → Acq → Prop) (hadm : AdmSafe adm)
+    (kb0 : KB) (tr : List Label) (c : Cfg) (hex : Exec ops progOf adm kb0 tr c) (hc : Complete tr) :
+    ∃ order : List Nat, order.Nodup ∧ (∀ i, i ∈ order ↔ Label.inv i ∈ tr) ∧
+      (∀ t1 t2 i o j, tr = t1 ++ Label.ret i o :: t2 → Label.inv j ∈ t2 → Precedes order i j) ∧
+      (∀ i o, (i, o) ∈ replay ops kb0 order ↔ Label.ret i o ∈ tr) ∧
+      c.shared = runFrom kb0 (order.map ops) := by
+  have hinv := inv_exec hadm table_programs_wellformed hex
+  have hl := inv_linearization hinv
+  have hmem : ∀ i, i ∈ linOrder tr ↔ Label.inv i ∈ tr := by
+    intro i
+    refine ⟨hl.invoked i, fun hi => ?_⟩
+    obtain ⟨o, ho⟩ := hc i hi
+    exact hl.returned i o ho
+  refine ⟨linOrder tr, hl.nodup, hmem, ?_, ?_, ?_⟩
+  · intro t1 t2 i o j htr hj
+    refine hl.realTime t1 t2 i o j htr hj ((hmem j).2 ?_)
+    rw [htr]; simp [hj]
+  · intro i o
+    refine ⟨fun hio => ?_, hl.results i o⟩
+    have hi : i ∈ linOrder tr := by
+      have := List.mem_map_of_mem (f := (·.1)) hio
+      rwa [replay_fst] at this
+    obtain ⟨o', ho'⟩ := hc i ((hmem i).1 hi)
+    have hio' := hl.results i o' ho'
+    have : o = o' := replay_functional ops kb0 (linOrder tr) hl.nodup hio hio'
+    rw [this]; exact ho'
+  · apply hl.final
+    intro i hd
+    have hi : Label.inv i ∈ tr := by rw [hinv.t.inv_iff, hd]; simp
+    obtain ⟨o, ho⟩ := hc i hi
+    have := ((hinv.t.ret_iff i o).1 ho).1
+    rw [hd] at this; cases this
+
+open C15.Lin in
+/-- **The same statement in the vocabulary of the runtime oracle.** `historyOf ops tr` is what the
+harness records of a run (one `Event` per completed call: thread, invocation stamp, response stamp,
+call, result). For every complete execution of the machine the recorded history has a permutation
+that respects real time and that the sequential model replays from the initial state — exactly the
+conclusion of `linSearch_sound`, i.e. exactly what the search checks on the histories sampled from
+the real code, here for ALL histories of the machine. -/
+theorem kb_history_linearizable (ops : Nat → Op) (adm : Cfg → Nat → Acq → Prop) (hadm : AdmSafe adm)
+    (kb0 : KB) (tr : List Label) (c : Cfg) (hex : Exec ops progOf adm kb0 tr c) (hc : Complete tr) :
+    ∃ l : List Event, l.Perm (historyOf ops tr) ∧ RespectsRealTime l ∧ Replays kb0 l :=
+  history_linearizable hadm table_programs_wellformed hex hc
+
+open C15.Lin in
+/-- **The property, "including from several threads at once".** After ANY concurrent execution from the
+empty knowledge base, at every moment at which no call is between its body and its response, the
+shared memory is the state of the sequential model after the linearized history — so everything proved
+in part (a) for all sequential histories holds of it: in particular the index is exact
+(`rules[index[n]].name = n`, every stored rule indexed at its position), the vector is in descending
+salience, names are unique, and the version is the number of successful changes so far. -/
+theorem kb_concurrent_consistent (ops : Nat → Op) (adm : Cfg → Nat → Acq → Prop) (hadm : AdmSafe adm)
+    (tr : List Label) (c : Cfg) (hex : Exec ops progOf adm KB.init tr c) (hq : Quiescent c) :
+    ∃ hist : List Op, c.shared = run hist ∧
+      (∀ n p, idxGet c.shared.index n = some p → ∃ r, c.shared.rules[p]? = some r ∧ r.name = n) ∧
+      (∀ p r, c.shared.rules[p]? = some r → idxGet c.shared.index r.name = some p) ∧
+      c.shared.rules.Pairwise (fun x y => y.salience ≤ x.salience) ∧
+      (c.shared.rules.map (·.name)).Nodup ∧
+      (∀ n, getRule c.shared n = latest n hist) := by
+  have hl := two_phase_footprint_linearizable ops progOf adm hadm table_programs_wellformed KB.init tr c hex
+  refine ⟨(linOrder tr).map ops, hl.final hq, ?_⟩
+  rw [hl.final hq]
+  have h1 := index_consistent ((linOrder tr).map ops)
+  have h2 := listing_once_sorted_stable ((linOrder tr).map ops)
+  exact ⟨h1.1, h1.2.1, h2.1, h2.2.2.1, fun n => lookup_latest _ n⟩
+
+open C15.Lin in
+/-- **The footprint condition has teeth**: a lock program that misses a component the method reads,
+or holds a component it changes only in read mode, is NOT well-formed against `Model.step` —
+`set_rule_enabled` without the index guard, `get_statistics` without the version guard, `version`
+without any guard, `add_rule` with `rules` only read-held. (These are what a source change that drops
+or weakens a guard turns a row of the regenerated table into; `table_footprints_ok` then fails.) -/
+theorem footprint_has_teeth :
+    ¬ FootprintOk [⟨0, .write, true⟩, ⟨2, .write, true⟩] (.setEnabled 7 false) ∧
+    ¬ FootprintOk [⟨0, .read, true⟩] .stats ∧
+    ¬ FootprintOk [] .version ∧
+    ¬ FootprintOk [⟨0, .read, true⟩, ⟨1, .write, true⟩, ⟨2, .write, true⟩] (.add ⟨7, 0, true, 0⟩) ∧
+    covers [⟨0, .write, true⟩, ⟨2, .write, true⟩] (need .setEnabled) = false ∧
+    covers [⟨0, .read, true⟩] (need .stats) = false ∧ covers [] (need .version) = false ∧
+    covers [⟨0, .read, true⟩, ⟨1, .write, true⟩, ⟨2, .write, true⟩] (need .add) = false := by
+  refine ⟨fun h => ?_, fun h => ?_, fun h => ?_, fun h => ?_, by decide, by decide, by decide, by decide⟩
+  · have := (h.dep ⟨[⟨7, 0, true, 0⟩], [(7, 0)], 3⟩ ⟨[⟨7, 0, true, 0⟩], [], 3⟩ (by
+      rintro k ⟨g, hg, rfl⟩
+      simp only [List.mem_cons, List.not_mem_nil, or_false] at hg
+      rcases hg with rfl | rfl <;> decide)).1
+    revert this; decide
+  · have := (h.dep ⟨[], [], 3⟩ ⟨[], [], 4⟩ (by
+      rintro k ⟨g, hg, rfl⟩
+      simp only [List.mem_cons, List.not_mem_nil, or_false] at hg
+      subst hg; decide)).1
+    revert this; decide
+  · have := (h.dep ⟨[], [], 3⟩ ⟨[], [], 4⟩ (by rintro k ⟨g, hg, _⟩; cases hg)).1
+    revert this; decide
+  · have := h.frame KB.init 0 (by
+      rintro ⟨g, hg, hk, hm⟩
+      simp only [List.mem_cons, List.not_mem_nil, or_false] at hg
+      rcases hg with rfl | rfl | rfl <;> revert hk hm <;> decide)
+    revert this; decide
+
+/-! Non-vacuity of (c): `clear` (thread 0) and `version()` (thread 1) overlap on a knowledge base with
+one rule and version 3. `version()` is invoked second, reads while `clear` is between two acquisitions,
+makes `clear` wait for `version.write`, and responds after the body of `clear` has run; `clear` writes a
+junk index before the final values and releases its guards one at a time. The trace is complete, the
+linearization is [version, clear] (not the invocation order), the results are 3 and (), the final
+shared memory is the sequential state. -/
+open C15.Lin in
+example : ∃ tr c, Exec exOps2 exProg rwAdm kbA tr c ∧ AdmSafe rwAdm ∧ (∀ op, FootprintOk (exProg op) op) ∧
+    Complete tr ∧ tr.take 2 = [.inv 0, .inv 1] ∧ linOrder tr = [1, 0] ∧
+    replay exOps2 kbA (linOrder tr) = [(1, .nat 3), (0, .unit)] ∧ Label.ret 1 (.nat 3) ∈ tr ∧
+    c.shared = runFrom kbA [.version, .clear] ∧ c.shared = ⟨[], [], 4⟩ :=
+  ⟨exTrace, _, ex_exec, fun _ _ _ h => h, exProg_ok, ex_complete, by decide, by decide, by decide, by decide,
+    by decide, by decide⟩
+
+open C15.Lin in
+/-- the lock is what orders them: in the middle of that execution `clear` is refused `version.write` -/
+example : ¬ rwAdm ⟨kbA, th2 ⟨.acq, [W0, W1], [W2], [], {}, {}, .unit⟩ ⟨.acq, [R2], [], [], {}, {}, .unit⟩⟩ 0 W2 :=
+  ex_blocked
+
+open C15.Lin in
+/-- the table lookup is not vacuous: every modelled method gets a non-empty lock program -/
+example : OpKind.all.all (fun k => !(progOfTbl kbMethods k).isEmpty) = true := by decide
+
+open C15.Lin in
+/-- the recorded history of the example execution: `version()` (invoked at 1, responded at 13, result 3)
+and `clear` (invoked at 0, responded at 21) overlap -/
+example : historyOf exOps2 exTrace = [⟨1, 1, 13, .version, .nat 3⟩, ⟨0, 0, 21, .clear, .unit⟩] := by decide
 
 end C15
